@@ -67,6 +67,24 @@ def tainted_cells(wb):
     return {a for a, o in occ.items() if o in t}
 
 
+def lone_constant(wb, rnd, rows, cols):
+    """a constant of very small or very large magnitude (at most 15 significant digits) in a cell that nothing reads:
+    every constant cell holds its stored value, whichever loading path"""
+    if rnd.random() < 0.5:
+        return
+    refd = set()
+    exprs = [c[-1] for c in wb.cells.values() if c[0] != 'v'] + [e for _, e in wb.names.values()]
+    for e in exprs:
+        for k, r in wb.deps(e):
+            if k == 'ref':
+                s_, r1, r2, c1, c2 = r
+                refd |= {(s_, i, j) for i in range(max(r1, 1), min(r2, rows) + 1) for j in range(max(c1, 1), min(c2, cols) + 1)}
+    spill = {(s_, r_ + i, c_ + j) for (s_, r_, c_), ct in wb.cells.items() if ct[0] == 'a' for i in range(ct[1]) for j in range(ct[2])}
+    free = [(0, i, j) for i in range(1, rows + 1) for j in range(1, cols + 1) if (0, i, j) not in wb.cells and (0, i, j) not in refd and (0, i, j) not in spill]
+    if free:
+        wb.cells[rnd.choice(free)] = ('v', rnd.choice([1.23456789e-12, 2.5e-16, 1e-20, -3.75e-13, 1.5e-300, 123456789012.125, 9.87654321e+20, 1e-15, 4.4e-16]))
+
+
 def check(run):
     bookrun.setup()
     rnd = run.rng
@@ -80,6 +98,7 @@ def check(run):
             rows_, cols_ = rnd.choice([(6, 4), (6, 4), (6, 4), (3, 7), (2, 8)])      # also sheets wider than tall
             wb = bookgen.generate(rnd, n_books=rnd.choice([1, 1, 2]), whole_col=(k % (40 if quick else 25) == 7 and rows_ == 6),
                                   rows=rows_, cols=cols_, n_const=min(14, rows_ * cols_), n_formula=min(12, rows_ * cols_))
+            lone_constant(wb, rnd, rows_, cols_)
             st = wb.stats()
             d = wb.to_dict()
             nontrivial = st['formulas'] >= 3 and (st['range_refs'] + st['name_refs']) >= 1
